@@ -43,6 +43,10 @@ pub struct Scenario {
     pub batches: Vec<Batch>,
     /// pairs of capacities whose generator vectors are compared position by position
     pub gen_pairs: Vec<(usize, usize)>,
+    /// caller-supplied, well-formed Pedersen generators with an unusual relationship (world::related_pedersen),
+    /// shared by every prover and verifier of the run
+    #[serde(default)]
+    pub pc_variant: u8,
 }
 
 pub struct C12;
@@ -70,6 +74,16 @@ fn run<G: Group>(sc: &Scenario, st: &mut RunStats) -> Vec<Violation> {
             return out;
         }
     }
+    let pc = related_pedersen::<G>(sc.ext, sc.pc_variant, sc.bits);
+    if pc.is_some() {
+        st.fault("caller_supplied_related_generators");
+    }
+    let build = |c: &Config, w: &WitnessSpec| -> Built<G> {
+        match &pc {
+            Some(pc) => build_with_params::<G>(custom_params::<G>(c.bits, c.cap, pc.clone()), c, w),
+            None => crate::world::build::<G>(c, w),
+        }
+    };
     struct Prep<G: Group> {
         proof: RangeProof<G>,
         base: Vec<String>,
@@ -77,17 +91,17 @@ fn run<G: Group>(sc: &Scenario, st: &mut RunStats) -> Vec<Violation> {
     let mut preps: Vec<Prep<G>> = Vec::new();
     let stmt = |mi: usize, cap: usize| -> RangeStatement<G> {
         let m = &sc.msgs[mi];
-        build::<G>(&Config { bits: sc.bits, m: m.m, cap, ext: sc.ext }, &m.wit).statement.clone()
+        build(&Config { bits: sc.bits, m: m.m, cap, ext: sc.ext }, &m.wit).statement.clone()
     };
     for (mi, m) in sc.msgs.iter().enumerate() {
         let cfg = Config { bits: sc.bits, m: m.m, cap: m.cap_prover, ext: sc.ext };
-        let built = build::<G>(&cfg, &m.wit);
+        let built = build(&cfg, &m.wit);
         let mut proof = match prove_mode::<G>(&m.ctx, &built.statement, &built.witness, &RngMode::Healthy(m.rng_seed)).0 {
             Ok(Ok(p)) => p,
             other => {
                 // is it the spare capacity, or can this statement not be proved at all (not C12's business)?
                 let eq_cfg = Config { cap: m.m, ..cfg };
-                let eq = build::<G>(&eq_cfg, &m.wit);
+                let eq = build(&eq_cfg, &m.wit);
                 let at_equal = matches!(prove_mode::<G>(&m.ctx, &eq.statement, &eq.witness, &RngMode::Healthy(m.rng_seed)).0, Ok(Ok(_)));
                 if m.cap_prover > m.m && at_equal {
                     out.push(Violation::new(
@@ -215,7 +229,7 @@ impl Check for C12 {
     }
 
     fn rule(&self) -> String {
-        "each seeded run has 2-6 prover nodes and 3+ verifier nodes that each draw their own generator capacity >= m (powers of two up to 32): every message (valid or deliberately corrupted) is verified alone by >= 3 nodes of different capacity in all three modes and inside 2-5 batches whose members' statements carry different capacities (one run in ten adds a batch of 257-514 honest members of mixed aggregation factors); generator vectors of 2-3 capacity pairs are compared position by position; one evaluation = one verify_batch call or one generator comparison; non-trivial = a prover/verifier capacity pair that actually differed; distinct = distinct event-log hashes".into()
+        "each seeded run has 2-6 prover nodes and 3+ verifier nodes that each draw their own generator capacity >= m (powers of two up to 32): every message (valid or deliberately corrupted) is verified alone by >= 3 nodes of different capacity in all three modes and inside 2-5 batches whose members' statements carry different capacities (one run in ten adds a batch of 257-514 honest members of mixed aggregation factors); generator vectors of 2-3 capacity pairs are compared position by position; one evaluation = one verify_batch call or one generator comparison; non-trivial = a prover/verifier capacity pair that actually differed; distinct = distinct event-log hashes One run in five uses caller-supplied, well-formed Pedersen generators with an unusual relationship, among them a blinding generator equal to a vector generator of an unused party.".into()
     }
 
     fn assumptions(&self) -> Vec<String> {
@@ -308,7 +322,8 @@ impl Check for C12 {
         let gen_pairs = (0..rng.range(2, 3))
             .map(|_| (pow2_at_least(rng, 1).min(max_cap), pow2_at_least(rng, 1).min(max_cap)))
             .collect();
-        Scenario { group: if ristretto { "ristretto".into() } else { "free".into() }, bits, ext, msgs, batches, gen_pairs }
+        let pc_variant = if rng.chance(1, 5) { 1 + rng.below(7) as u8 } else { 0 };
+        Scenario { group: if ristretto { "ristretto".into() } else { "free".into() }, bits, ext, msgs, batches, gen_pairs, pc_variant }
     }
 
     fn execute(&self, sc: &Scenario, st: &mut RunStats) -> Vec<Violation> {
@@ -359,6 +374,6 @@ impl Check for C12 {
     }
 
     fn required_probes(&self, _tier: Tier) -> Vec<&'static str> {
-        vec!["capacity_skew_single", "capacity_skew_batch", "capacity_skew_generators", "corrupted_member", "capacity_skew_batch_beyond_one_chunk", "mixed_aggregation_factors_beyond_one_chunk"]
+        vec!["capacity_skew_single", "capacity_skew_batch", "capacity_skew_generators", "corrupted_member", "capacity_skew_batch_beyond_one_chunk", "mixed_aggregation_factors_beyond_one_chunk", "caller_supplied_related_generators"]
     }
 }
